@@ -104,8 +104,12 @@ def DoOp.request (op : DoOp) : Option (Req × Bytes × Nat) :=
     | _ => none
 
 def DoOp.modelOut (op : DoOp) : String :=
-  if op.nilReq then "err nilreq | - | err nilreq | -" else
-  if op.notConnected then "err notconnected | - | err notconnected | -" else
+  if op.nilReq || op.notConnected then
+    -- refused before the exchange: the model's `doCall` decides which of the two errors (nil request first)
+    let rq := if op.nilReq then none else (op.request.map fun x => x.2).orElse fun _ => some ([], 0)
+    let (o1, l1) := doCall op.kind op.flusher true (!op.notConnected) rq op.writeFails op.script
+    let (o2, l2) := doCall op.kind op.flusher false (!op.notConnected) rq op.writeFails op.script
+    s!"{doOutStr o1} | {logStr l1} | {doOutStr o2} | {logStr l2}" else
   match op.request with
   | none => "NOREQ"
   | some (_, bytes, expected) =>
